@@ -532,16 +532,11 @@ func (b *BaseStore) Load(ctx context.Context, amount int) error {
 	progress := make(chan ifacelog.IPFSLogEntry)
 	defer close(progress)
 	go func() {
-		for {
-			var entry ifacelog.IPFSLogEntry
-			select {
-			case <-ctx.Done():
-				return
-			case entry = <-progress:
-				if entry == nil {
-					// should not happen
-					return
-				}
+		// keep receiving until the channel is closed, also once the context is done: the
+		// fetcher sends without looking at the context and would block forever otherwise
+		for entry := range progress {
+			if entry == nil {
+				continue
 			}
 
 			b.recalculateReplicationStatus(entry.GetClock().GetTime())
